@@ -810,6 +810,11 @@ int dispatch_printed_messages(const char* messages,
 
                     ok = (*dispatcher)(messagebuf);
                     //printf("%s, %s, %d -> %s\n", messagebuf, portname, nargs, ok ? "yes": "no");
+
+                    // a message without arguments is sent once
+                    // (the iterator can not advance past nothing)
+                    if(!nargs)
+                        break;
                 }
             }
         }
